@@ -1,5 +1,5 @@
 SPECIFICATION Spec
 CONSTANTS
   Tier = "quick"
-INVARIANTS LawRound LawSelect LawMinMax LawObs Emit
+INVARIANTS LawRound LawSelect LawMinMax LawObs LawStep LawClamp Emit
 CHECK_DEADLOCK FALSE
